@@ -35,7 +35,7 @@ func vReaderSegment(reopen bool) (segment.Segment, *sSpec) {
 
 // vReaderOp runs one reader operation chosen symbolically.
 func vReaderOp(seg segment.Segment, sp *sSpec, tag string) {
-	switch vChoice(tag+"op", 7) {
+	switch vChoice(tag+"op", 8) {
 	case 0: // stored-field visit that stops after a symbolic number of callbacks
 		d := vChoice(tag+"doc", 3)
 		stop := 1 + vChoice(tag+"stop", 3)
@@ -56,6 +56,19 @@ func vReaderOp(seg segment.Segment, sp *sSpec, tag string) {
 		var z ZapPlugin
 		_, _, err := z.Merge([]segment.Segment{seg}, []*roaring.Bitmap{nil}, vP(tag+"m.zap"), nil, nil)
 		vAssert(err == nil, "merge-err")
+	case 7: // a lookup that misses, then a lookup that hits with the objects of the miss passed back as preallocation
+		d, err := seg.Dictionary("f")
+		vAssert(err == nil, "dict")
+		pl, err := d.PostingsList([]byte("nosuchterm"), nil, nil)
+		vAssert(err == nil && pl.Count() == 0, "miss-empty")
+		it := pl.Iterator(true, true, true, nil)
+		p, err := it.Next()
+		vAssert(err == nil && p == nil, "miss-iter-empty")
+		pl2, err := d.PostingsList([]byte("a"), nil, pl)
+		vAssert(err == nil && pl2.Count() == 2, "hit-count")
+		it2 := pl2.Iterator(true, true, true, it)
+		p, err = it2.Next()
+		vAssert(err == nil && p != nil && p.Number() == 0, "hit-first")
 	case 6: // twice as input of one merge, with deletions (per-document path for both inputs)
 		var z ZapPlugin
 		d0, d1 := roaring.New(), roaring.New()
@@ -75,6 +88,16 @@ func H11_pool() {
 	g1 := visitDocumentCtxPool.Get().(*visitDocumentCtx)
 	g2 := visitDocumentCtxPool.Get().(*visitDocumentCtx)
 	vAssert(g1 != g2, "two-owners")
+	vSentinelsIntact()
+}
+
+// vSentinelsIntact: the package-level "empty" objects that every reader may be handed are still empty.
+func vSentinelsIntact() {
+	vAssert(emptyPostingsList.postings == nil && emptyPostingsList.sb == nil && emptyPostingsList.except == nil && emptyPostingsList.normBits1Hit == 0, "sentinel-postingslist")
+	vAssert(emptyPostingsIterator.postings == nil && emptyPostingsIterator.ActualBM == nil && emptyPostingsIterator.all == nil, "sentinel-postingsiterator")
+	vAssert(emptyDictionary.fst == nil && emptyDictionary.sb == nil, "sentinel-dictionary")
+	vAssert(emptyDictionaryIterator.itr == nil && emptyDictionaryIterator.d == nil, "sentinel-dictionaryiterator")
+	vAssert(emptySynonymsList.synonyms == nil && emptySynonymsIterator.ActualBM == nil && emptyThesaurus.fst == nil, "sentinel-thesaurus")
 }
 
 // H11_effects: every reader operation writes only to memory it owns, to guarded state with the lock held,
@@ -86,6 +109,7 @@ func H11_effects() {
 	vReaderOp(seg, sp, "b")
 	vUnshare()
 	sCheckStored(seg, sp, "after-")
+	vSentinelsIntact()
 }
 
 // vGenBatchFixed generates a batch with every presence / stored bit set (no symbolic shape).
